@@ -748,7 +748,7 @@ void updateComponentsVariablesUnitsNames(const std::string &name, const Componen
             // to modify).
             continue;
         }
-        if (variable->units()->name() == name) {
+        if ((variable->units() != nullptr) && (variable->units()->name() == name)) {
             variable->setUnits(units);
         }
     }
